@@ -7,12 +7,12 @@ cd "$WT" || exit 2
 DEMO=$(ls demo_*.py | head -1)
 git diff -- indi > /tmp/seed_$NAME.diff
 [ -s /tmp/seed_$NAME.diff ] || { echo "no change in worktree"; exit 2; }
-/venv/bin/python "$DEMO" > /tmp/seed_$NAME.with 2>&1; RC_WITH=$?
+PYTHONPATH="$WT" /venv/bin/python "$DEMO" > /tmp/seed_$NAME.with 2>&1; RC_WITH=$?
 # (git stash is shared between worktrees of one repository: use apply -R instead)
 git apply -R /tmp/seed_$NAME.diff
-/venv/bin/python "$DEMO" > /tmp/seed_$NAME.without 2>&1; RC_WITHOUT=$?
+PYTHONPATH="$WT" PYTHONPATH="$WT" /venv/bin/python "$DEMO" > /tmp/seed_$NAME.without 2>&1; RC_WITHOUT=$?
 git apply /tmp/seed_$NAME.diff
-SUITE=$(/venv/bin/python -m pytest -q -p no:cacheprovider -n 8 2>&1 | tail -1)
+SUITE=$(PYTHONPATH="$WT" /venv/bin/python -m pytest -q -p no:cacheprovider -n 8 2>&1 | tail -1)
 echo "demo with change: rc=$RC_WITH; without: rc=$RC_WITHOUT; suite: $SUITE"
 if [ $RC_WITH -ne 0 ] && [ $RC_WITHOUT -eq 0 ] && echo "$SUITE" | grep -q "333 passed"; then
   D=/verif/seeded/$NAME; mkdir -p $D
